@@ -141,6 +141,7 @@ def run_atoms(ctx):
     rcm, MS = vc.run_lines(mod, tmp, timeout=900, args=["atom"])
     os.unlink(tmp)
     Rh, Mh = split_hist(R), split_hist(MS)
+    corr_break = None
     stats = {"histories": len(hists), "ops": 0, "by_op": {}, "lookups_hit": 0, "lookups_miss": 0, "register_fail": 0,
              "nodomain_ops": 0, "cache_hits_slot": [0, 0, 0, 0], "max_chain": 0, "crashes": 0}
     for hi, h in enumerate(hists):
@@ -179,14 +180,18 @@ def run_atoms(ctx):
                               "\n# spec   : " + s_lines[i] + "\n# model  : " + m_lines[i] + "\n# library: " + r_lines[i],
                               found=True, signature=sig, suffix="atom")
                 break
-            if r_lines[i][2:].strip() != m_lines[i][2:].strip():
-                ctx.violation("atom table: library state differs from the implementation model (relation HA* ~ AtomModel.m_step) "
-                              "at op %d (%s); results agree with the specification" % (i, op),
+            if r_lines[i][2:].strip() != m_lines[i][2:].strip() and corr_break is None:
+                # correspondence broken: keep searching (this history and the following ones) for an input on which
+                # the library's RESULT differs from the specification; report the state difference only if none exists
+                corr_break = ("atom table: library state differs from the implementation model (relation HA* ~ AtomModel.m_step) "
+                              "at op %d (%s); no input with a wrong result found" % (i, op),
                               "# C13 atom correspondence broken; no input with a wrong result found\nN\n" + "\n".join(h[:i + 1]) +
-                              "\n# model  : " + m_lines[i] + "\n# library: " + r_lines[i], found=False, suffix="atom")
-                break
-        if len(ctx.violations) >= 3:
+                              "\n# model  : " + m_lines[i] + "\n# library: " + r_lines[i])
+        if len([v for v in ctx.violations if v["found"]]) >= 3:
             break
+    stats["state_mismatch"] = corr_break is not None
+    if corr_break is not None and not any(v["found"] for v in ctx.violations):
+        ctx.violation(corr_break[0], corr_break[1], found=False, suffix="atom")
     ctx.corr("HA*~AtomModel.m_step~s_step", **stats)
 
 
@@ -746,9 +751,33 @@ def split_hist(lines):
     return out
 
 
+def run_wrap(ctx):
+    """thorough tier: theorem atom_wrap_refuted replayed on the real library (2^28 register/remove pairs)."""
+    exe = ctx.harness("drive_atom", ["drive_atom.c"])
+    tmp = os.path.join(ctx.bdir, "harness", "c13_wrap_%d.in" % os.getpid())
+    hist = ["I 3 64", "R 3 1", "W 3 268435455", "L @1"]
+    open(tmp, "w").write("N\n" + "\n".join(hist) + "\n")
+    rc, R = vc.run_lines(exe, tmp, timeout=3000)
+    os.unlink(tmp)
+    rl = [l for l in R if l.startswith("R ")]
+    stats = {"ran": len(rl) == 4}
+    if len(rl) == 4:
+        first, again, obj = rl[1].split()[1], rl[2].split()[1], rl[3].split()[1]
+        stats.update(first_id=first, id_after_2p28=again, lookup_of_first_id=obj)
+        ctx.case(("wrap", first, again), True)
+        if first == again:
+            ctx.violation("atom id counter wrapped: the 2^28-th registration re-issued live id %s (its lookup now returns object %s, "
+                          "registered object was 1)" % (first, obj),
+                          "# C13 atom replay (thorough tier; 2^28 register/remove pairs)\nN\n" + "\n".join(hist),
+                          found=True, signature="atom-id-wrap-2^28", suffix="atom")
+    ctx.corr("atom_wrap_refuted~library", **stats)
+
+
 def run(ctx):
     run_atoms(ctx)
     run_mixed(ctx)
+    if ctx.tier == "thorough":
+        run_wrap(ctx)
 
 
 def replay(ctx, path):
